@@ -38,6 +38,25 @@ func ruleExactLength(r *Report) {
 			}
 			key := ef0uniq(rule + "/" + FuncKey(fn))
 			n++
+			// provenance: the two lengths are the header reader's results, unmodified
+			{
+				args := a.Call().Common().Args
+				un, co := args[len(args)-2], args[len(args)-1]
+				fromHeader := func(v ssa.Value, idx int) bool {
+					ex, ok := v.(*ssa.Extract)
+					if !ok || ex.Index != idx {
+						return false
+					}
+					c, ok := ex.Tuple.(*ssa.Call)
+					return ok && strings.HasPrefix(CalleeKey(c), "recordio.readRecordHeaderV")
+				}
+				pk := ef0uniq(rule + "/" + FuncKey(fn) + "/length-provenance")
+				if fromHeader(un, 0) && fromHeader(co, 1) {
+					r.OK(rule, pk, a.Pos(), "buffer sized by the parsed header lengths")
+				} else {
+					r.Bad(rule, pk, a.Pos(), "the payload buffer is not sized by the header's lengths as parsed (e.g. clamped to the remaining file size): a cut file yields a shortened payload instead of an error")
+				}
+			}
 			if bufVal == nil {
 				r.Bad(rule, key, a.Pos(), "the allocated record buffer is not used")
 				continue
